@@ -86,6 +86,7 @@ func (e *Enc) allocAddr(cur *cursor) string {
 	a := e.ghostGet(cur.st, "$alloc")
 	addr := e.define("new", "Addr", fmt.Sprintf("(Base %s)", a))
 	cur.st.ghost["$alloc"] = e.define("$alloc", "Int", fmt.Sprintf("(+ %s 1)", a))
+	e.freshAddrs[addr] = true
 	return addr
 }
 
@@ -98,9 +99,7 @@ func (e *Enc) instr(cur *cursor, ins ssa.Instruction) {
 		if !x.Heap {
 			st.loc[x] = e.m.zero(et)
 			fc.vals[x] = Val{K: vLocal, Alloc: x, Ty: x.Type()}
-			if x.Comment != "" && fc.namedLoc != nil {
-				fc.namedLoc[x.Comment] = x
-			}
+			e.noteAlloc(cur, x)
 			return
 		}
 		a := e.allocAddr(cur)
@@ -114,9 +113,7 @@ func (e *Enc) instr(cur *cursor, ins ssa.Instruction) {
 			e.storeAt(st, a, et, e.m.zero(et))
 		}
 		fc.vals[x] = Val{K: vTerm, T: a, Ty: x.Type(), Name: x.Comment}
-		if x.Comment != "" && fc.namedLoc != nil {
-			fc.namedLoc[x.Comment] = x
-		}
+		e.noteAlloc(cur, x)
 	case *ssa.Store:
 		addr := e.value(fc, x.Addr)
 		val := e.value(fc, x.Val)
@@ -288,6 +285,21 @@ func (e *Enc) instr(cur *cursor, ins ssa.Instruction) {
 	}
 }
 
+func (e *Enc) noteAlloc(cur *cursor, x *ssa.Alloc) {
+	e.nseq++
+	cur.st.seen[x] = e.nseq
+	fc := cur.fc
+	if x.Comment == "" || fc.namedLoc == nil {
+		return
+	}
+	for _, a := range fc.namedLoc[x.Comment] {
+		if a == x {
+			return
+		}
+	}
+	fc.namedLoc[x.Comment] = append(fc.namedLoc[x.Comment], x)
+}
+
 func (e *Enc) zeroFill(cur *cursor, a string, el types.Type) {
 	leaves := map[string]string{}
 	if isStruct(el) {
@@ -336,8 +348,14 @@ func (e *Enc) store(cur *cursor, addr, val Val, pos token.Pos, addrV ssa.Value) 
 		_ = lt
 		st.loc[a] = e.define(a.Comment, e.m.sortOf(at), nv)
 	case vFieldRef:
+		if e.tinvName(addr.SI.named) != "" {
+			e.tinvAssumeLoad(cur, addr.Base, addr.SI.named)
+		}
 		n, s := e.fieldArr(addr.SI, addr.Field)
 		e.heapSet(st, n, s, fmt.Sprintf("(store %s %s %s)", e.heapGet(st, n, s), addr.Base, vt))
+		if e.tinvName(addr.SI.named) != "" && !(e.isFreshAddr(addr.Base) && e.moreInitStores(cur, addrV)) {
+			e.tinvObligeStore(cur, addr.Base, addr.SI.named, pos, addr.SI.name+"."+addr.SI.st.Field(addr.Field).Name())
+		}
 	default:
 		a := e.asTerm(addr)
 		pt := addr.Ty.Underlying().(*types.Pointer)
@@ -345,7 +363,36 @@ func (e *Enc) store(cur *cursor, addr, val Val, pos token.Pos, addrV ssa.Value) 
 			e.safety(cur, "nil", fmt.Sprintf("(not (= %s Nil))", a), pos, "nil dereference on store")
 		}
 		e.storeAt(st, a, pt.Elem(), vt)
+		if isStruct(pt.Elem()) {
+			e.tinvObligeStore(cur, a, pt.Elem(), pos, "*"+pt.Elem().String())
+		}
 	}
+}
+
+// moreInitStores: the store through addrV (a FieldAddr into a freshly allocated struct) is directly
+// followed, in the same basic block and with no call in between, by another field store into the same
+// struct: the value is still being initialised field by field (composite literal), so its type
+// invariant is checked at the last store of the run only.
+func (e *Enc) moreInitStores(cur *cursor, addrV ssa.Value) bool {
+	fa, ok := addrV.(*ssa.FieldAddr)
+	if !ok || cur.block == nil {
+		return false
+	}
+	for _, ins := range cur.block.Instrs[cur.idx+1:] {
+		switch x := ins.(type) {
+		case *ssa.Store:
+			if fb, ok := x.Addr.(*ssa.FieldAddr); ok && fb.X == fa.X {
+				return true
+			}
+			return false
+		case *ssa.FieldAddr, *ssa.UnOp, *ssa.Alloc, *ssa.Field, *ssa.IndexAddr, *ssa.Index, *ssa.BinOp, *ssa.Convert,
+			*ssa.ChangeType, *ssa.Slice, *ssa.DebugRef, *ssa.Extract, *ssa.MakeInterface, *ssa.ChangeInterface, *ssa.MakeClosure:
+			continue
+		default:
+			return false
+		}
+	}
+	return false
 }
 
 func (e *Enc) unop(cur *cursor, x *ssa.UnOp) {
@@ -360,7 +407,7 @@ func (e *Enc) unop(cur *cursor, x *ssa.UnOp) {
 					e.setVal(cur, x, e.m.constTerm(e, gi.initVal))
 					return
 				case "errnew":
-					e.setVal(cur, x, fmt.Sprintf("(APtr %d (Glob %d))", e.m.tid(types.Typ[types.Invalid]), 1000+gi.id))
+					e.setVal(cur, x, fmt.Sprintf("(APtr %d (Glob %d))", e.m.tidKey("plainerror"), 1000+gi.id))
 					return
 				case "zero":
 					e.setVal(cur, x, e.m.zero(x.Type()))
@@ -381,6 +428,7 @@ func (e *Enc) unop(cur *cursor, x *ssa.UnOp) {
 			v, _ := e.project(curv, at, addr.Path)
 			e.setVal(cur, x, v)
 		case vFieldRef:
+			e.tinvAssumeLoad(cur, addr.Base, addr.SI.named)
 			n, s := e.fieldArr(addr.SI, addr.Field)
 			e.setVal(cur, x, fmt.Sprintf("(select %s %s)", e.heapGet(st, n, s), addr.Base))
 			e.assume(cur.guard, e.typeAssume(st, fc.vals[x].T, x.Type()))
@@ -388,6 +436,9 @@ func (e *Enc) unop(cur *cursor, x *ssa.UnOp) {
 			a := e.asTerm(addr)
 			if !isNonNilValue(x.X) {
 				e.safety(cur, "nil", fmt.Sprintf("(not (= %s Nil))", a), x.Pos(), "nil dereference on load")
+			}
+			if isStruct(x.Type()) {
+				e.tinvAssumeLoad(cur, a, x.Type())
 			}
 			e.setVal(cur, x, e.loadAt(st, a, x.Type()))
 			e.assume(cur.guard, e.typeAssume(st, fc.vals[x].T, x.Type()))
@@ -620,6 +671,9 @@ func (e *Enc) typeAssert(cur *cursor, x *ssa.TypeAssert) {
 	}
 	ok := e.define("isT", "Bool", e.isType(a, x.AssertedType))
 	val := e.unbox(a, x.AssertedType)
+	if ta := e.typeAssume(cur.st, val, x.AssertedType); ta != "true" {
+		e.assume(cur.guard, fmt.Sprintf("(=> %s %s)", ok, ta))
+	}
 	if x.CommaOk {
 		v := e.define(x.Name(), e.m.sortOf(x.AssertedType), fmt.Sprintf("(ite %s %s %s)", ok, val, e.m.zero(x.AssertedType)))
 		fc.vals[x] = Val{K: vTuple, Tuple: []Val{term(v, x.AssertedType), term(ok, types.Typ[types.Bool])}}
